@@ -110,7 +110,7 @@ Proof.
   unfold auto_rank, where_gt in E. rewrite eigsum_suffix, suffix_sums_length in E.
   destruct eig as [|x l]; [cbn in H; lra|].
   pose proof (last_where_none _ _ E 0%nat ltac:(cbn; lia)) as H0.
-  rewrite nth_suffix_sums in H0. apply Rltb_false in H0. cbn [skipn] in H0. contradiction.
+  cbv beta in H0. rewrite nth_suffix_sums in H0. apply Rltb_false in H0. cbn [skipn] in H0. contradiction.
 Qed.
 
 (* ---------------------------------------------------------------------------------------- *)
